@@ -1,5 +1,6 @@
 """C16 REPLWrapper: each command returns exactly its own output."""
 import asyncio
+import os
 import signal
 import sys
 
@@ -135,7 +136,40 @@ def gen_case(rng):
     shell = rng.choice(['bash', 'python'])
     n = rng.randint(5, 40 if rng.random() < 0.3 else 14)
     cmds = [(gen_bash if shell == 'bash' else gen_py)(rng) for _ in range(n)]
-    return {'shell': shell, 'async': rng.random() < 0.4, 'cmds': [list(c) for c in cmds]}
+    make = 'stock'
+    if rng.random() < 0.4:
+        make = rng.choice(['custom-init', 'custom-init'] + (['existing-echo', 'plain-prompts'] if shell == 'python' else []))
+    return {'shell': shell, 'async': rng.random() < 0.4, 'cmds': [list(c) for c in cmds], 'make': make,
+            'init': rng.randrange(4)}
+
+
+BASH_INITS = ["export PAGER=cat\nexport PV_A=1", "export PAGER=cat\n", "for i in 1 2; do\n :\ndone",
+              "echo init-noise; export PAGER=cat\necho more-noise"]
+PY_INITS = ["import os\nimport re", "def twice(x):\n    return 2*x\n", "print('init noise')\nx_init = 1\n", "x_init = 2\n"]
+
+
+def make_repl(case):
+    """the stock factories, or the same wrapper built by hand the way the documentation shows: with an initialisation
+    command of several lines, around an existing spawn that still echoes, or with the REPL's own prompts"""
+    shell, make = case['shell'], case.get('make', 'stock')
+    if make == 'stock':
+        return replwrap.bash() if shell == 'bash' else replwrap.python(sys.executable)
+    P, C = replwrap.PEXPECT_PROMPT, replwrap.PEXPECT_CONTINUATION_PROMPT
+    if shell == 'bash':
+        bashrc = os.path.join(os.path.dirname(replwrap.__file__), 'bashrc.sh')
+        child = pexpect.spawn('bash', ['--rcfile', bashrc], echo=False, encoding='utf-8')
+        ps1 = P[:5] + '\\[\\]' + P[5:]
+        ps2 = C[:5] + '\\[\\]' + C[5:]
+        return replwrap.REPLWrapper(child, u'\\$', u"PS1='{0}' PS2='{1}' PROMPT_COMMAND=''".format(ps1, ps2),
+                                    extra_init_cmd=BASH_INITS[case.get('init', 0)])
+    change = u"import sys; sys.ps1={0!r}; sys.ps2={1!r}"
+    if make == 'custom-init':
+        return replwrap.REPLWrapper(sys.executable, u'>>> ', change, extra_init_cmd=PY_INITS[case.get('init', 0)])
+    if make == 'existing-echo':
+        child = pexpect.spawn(sys.executable, echo=True, encoding='utf-8')
+        return replwrap.REPLWrapper(child, u'>>> ', change)
+    child = pexpect.spawn(sys.executable, echo=False, encoding='utf-8')
+    return replwrap.REPLWrapper(child, u'>>> ', None, continuation_prompt=u'... ')
 
 
 def one(case, acc):
@@ -143,7 +177,8 @@ def one(case, acc):
     acc.count('sequences')
     shell = case['shell']
     try:
-        repl = replwrap.bash() if shell == 'bash' else replwrap.python(sys.executable)
+        repl = make_repl(case)
+        acc.count('wrappers_' + case.get('make', 'stock'))
     except Exception as e:
         # bash and python exist (selftest): an exception while the wrapper sets itself up comes from pexpect
         acc.violation('repl-cannot-start:' + type(e).__name__, 'could not start the %s wrapper: %r' % (shell, str(e)[:200]), case)
